@@ -34,7 +34,9 @@ impl Engine for BigRecEngine {
 
     fn generate(&self, property: &str, seed: u64, _tier: &str) -> Scenario {
         let mut c = Tape::fresh(mix(seed, 0xB16C));
-        let pairs = 1030 + c.below(160) as i64;
+        // just above one journal transaction (1024 entries), or above what three journal blocks
+        // can hold at all (1531 entries)
+        let pairs = if c.chance(1, 2) { 1030 + c.below(160) as i64 } else { 1540 + c.below(200) as i64 };
         let sim = SimConfig {
             strategy: Strategy::Random,
             tick_ns: 0,
